@@ -241,6 +241,35 @@ def check_gmd_bookkeeping(ctx: Ctx, rule: str = 'C20.f') -> None:
             if v.startswith('np.r_[0:') or v.startswith('np.arange(') or v.startswith('list(range('):
                 ident[n.targets[0].id] = v
     perms = sorted(ident)
+    if len(perms) == 1:
+        # recognisably wrong: only the rank -> location array is kept, and after the entries at locations a and b of the diagonal were
+        # exchanged it is updated AT INDEX a, i.e. it assumes that the entry that sat at location a has rank a (true only until the first
+        # exchange touches that location; from 5 singular values on it need not be)
+        pm = perms[0]
+        for blk_owner in ast.walk(fn.node):
+            for fld in ('body', 'orelse'):
+                body = getattr(blk_owner, fld, None)
+                if not (isinstance(body, list) and body and isinstance(body[0], ast.stmt)):
+                    continue
+                # an exchange d[a] <-> d[b] in this block
+                stores = [(norm(st.targets[0].value), norm(st.targets[0].slice), norm(st.value)) for st in body
+                          if isinstance(st, ast.Assign) and len(st.targets) == 1 and isinstance(st.targets[0], ast.Subscript)]
+                swapped = set()
+                for arr, idx, val in stores:
+                    for arr2, idx2, val2 in stores:
+                        if arr == arr2 and arr != pm and idx != idx2 and val == '%s[%s]' % (arr, idx2):
+                            swapped |= {idx, idx2}
+                for st in body:
+                    if isinstance(st, ast.Assign) and len(st.targets) == 1 and isinstance(st.targets[0], ast.Subscript) \
+                            and norm(st.targets[0].value) == pm and norm(st.targets[0].slice) in swapped and norm(st.value) in swapped \
+                            and norm(st.value) != norm(st.targets[0].slice):
+                        ctx.obligation(rule, 'gmd', False, {'permutation': pm, 'update': norm(st), 'exchanged_locations': sorted(swapped)})
+                        ctx.violation(rule, 'gmd', 'after the diagonal entries at locations %s were exchanged, `%s` updates the rank -> location array at '
+                                      'INDEX %s: that assumes the entry which sat at location %s has rank %s - true only until an earlier exchange '
+                                      'touched that location (Q R P^H then no longer reconstructs the matrix, from 5 singular values on)'
+                                      % (sorted(swapped), norm(st), norm(st.targets[0].slice), norm(st.targets[0].slice), norm(st.targets[0].slice)),
+                                      fn.path, st.lineno, operand='paired-update')
+                        return
     if len(perms) < 2:
         ctx.error(rule + ': gmd no longer keeps a permutation and its inverse as two index arrays (%s): cannot tell' % perms)
     # blocks: statement lists
